@@ -626,3 +626,17 @@ Inductive ext_block_ok : list byte -> Prop :=
 | EB_cons : forall e0 e1 l0 l1 body rest,
     length body = u16n l0 l1 -> ext_body_ok (u16 e0 e1) body -> ext_block_ok rest ->
     ext_block_ok (e0 :: e1 :: l0 :: l1 :: body ++ rest).
+
+(* ---------- the exact acceptance condition of clientHelloMsg.unmarshal as a whole (specification) ---------- *)
+(* what may follow the compression methods: nothing, or a u16 length and an extension block of exactly that length *)
+Definition ch_ext_part_ok (ext : list byte) : Prop :=
+  ext = [] \/ exists x0 x1 blk, ext = x0 :: x1 :: blk /\ length blk = u16n x0 x1 /\ ext_block_ok blk.
+
+(* header (4 bytes, the 3-byte length is not looked at), version, random, session id (<= 32), cipher suites (even
+   length), compression methods, extensions *)
+Inductive ch_shape : list byte -> Prop :=
+| CHS : forall hdr v0 v1 random sl sid c0 c1 suites cl comp ext,
+    length hdr = 4 -> length random = 32 -> length sid = N.to_nat sl -> length sid <= 32 ->
+    length suites = u16n c0 c1 -> Nat.even (length suites) = true -> length comp = N.to_nat cl ->
+    ch_ext_part_ok ext ->
+    ch_shape (hdr ++ v0 :: v1 :: random ++ sl :: sid ++ c0 :: c1 :: suites ++ cl :: comp ++ ext).
